@@ -36,21 +36,21 @@
     [Inv_eqv]: the invariant only depends on [B0] up to [sonode_eqv];
     [try_remove_backup_spec]: what [try_remove_backup] does to a non-directory.
 
-    Side conditions of [force_backup_spec] (each one is necessary in the
-    faithful model; see Props/C17.v for the counterexamples found):
+    Side conditions of [force_backup_spec] (see Props/C17.v):
     - the original at p was not a directory (otherwise the backup copy is a
       directory and [try_remove_backup] walks it: not covered);
     - [parents_original]: if p is tracked as "did not exist" and exists now,
       its parent directories existed when the transaction began.  If a parent
       was created in the transaction it is not in the backup, the copy of p
       cannot be created, ForceBackup fails and leaves p untracked: Rollback
-      then cannot remove the created parent;
-    - [backup_parents_resolved]: if p is tracked as "did not exist" and does
-      not exist now, no proper ancestor of p is a symlink *in the backup*.
-      (Otherwise [Lstat] of p on the backup filesystem follows the backed-up
-      copy of a symlink and [try_remove_backup] may delete the backup copy of
-      another path.)  It follows from the invariant when all proper ancestors
-      of p are directories in the base ([backup_nolinkpar]). *)
+      then cannot remove the created parent (recorded finding D22).
+
+    For a path recorded as "did not exist" [try_remove_backup] only drops the
+    bookkeeping entry and does not consult the backup filesystem.  (Before
+    the repair of finding D21 it did - [Lstat] of p on the backup could follow
+    the backed-up copy of a symlink among the parents of p and delete the
+    backup copy of another path - and the theorem needed the side condition
+    that no proper ancestor of p is a symlink in the backup.) *)
 From stdpp Require Import gmap.
 From BFS Require Import Spec.CopySpecs.
 From BFS Require Import Path.PathSpec.
@@ -209,7 +209,8 @@ Section Force.
   Qed.
 
   (** the parents of a path that can be addressed directly in the base are
-      not symlinks in the backup *)
+      not symlinks in the backup (not needed any more since the repair of D21;
+      kept as a fact about the invariant) *)
   Lemma backup_nolinkpar (w : world) (p : str) :
     Inv Vb Vk B0 w -> sdirect (Vb w) p -> snolinkpar (Vk w) p.
   Proof.
@@ -313,12 +314,11 @@ Section Force.
   Lemma try_remove_backup_spec (w : world) (p : str) :
     Inv Vb Vk B0 w -> p <> s_root -> (forall m, Vb w !! p <> Some (Dir m)) ->
     (forall fi, w_infos w !! p = Some (Some fi) -> fi_kind fi <> KDir) ->
-    (w_infos w !! p = Some None -> snolinkpar (Vk w) p) ->
     exists w', try_remove_backup backup p w = (MOk tt, w') /\ Vb w' = Vb w /\
                w_infos w' = base.delete p (w_infos w) /\
                Inv Vb Vk (rebase B0 p (Vb w !! p)) w'.
   Proof.
-    intros HI Hne Hcur Hfi Hpark.
+    intros HI Hne Hcur Hfi.
     pose proof (orig_not_dir w p HI Hcur Hfi) as Hnd.
     destruct (w_infos w !! p) as [[fi0|]|] eqn:Hi.
     - (* tracked, existed: the copy is removed *)
@@ -366,31 +366,26 @@ Section Force.
         * unfold w3. rewrite Vk_infos, HV2. exact Hwf'.
         * unfold w3. rewrite Vk_infos, HV2. rewrite <- HV1. exact Heqv.
         * unfold w3. rewrite Vk_infos, HV2. exact Hnone.
-    - (* tracked, did not exist: there is no copy *)
-      specialize (Hpark eq_refl).
+    - (* tracked, did not exist: there is no copy; the backup is not consulted *)
       assert (Hknone : Vk w !! p = None).
       { destruct (Vk w !! p) as [nk|] eqn:E; [| reflexivity].
         destruct (inv_backup_only _ _ _ _ HI p Hne) as [fi Hfi']; [rewrite E; discriminate |].
         rewrite Hi in Hfi'. discriminate Hfi'. }
-      destruct (law_lstat_none _ _ _ _ _ _ _ Lk w p (inv_quiet _ _ _ _ HI) (inv_wf_k _ _ _ _ HI) Hpark Hknone)
-        as (e & w1 & Hrun1 & Hnf & HV1 & Hsr1).
-      pose proof Hsr1 as (HVb1 & Hi1 & Hc1 & Hf1).
-      set (w2 := with_infos w1 (base.delete p (w_infos w1))).
+      set (w2 := with_infos w (base.delete p (w_infos w))).
       exists w2. split; [| split; [| split]].
       + unfold try_remove_backup.
         rewrite (bind_ok _ _ w w _ (already_seen_run p w)). rewrite Hi.
-        rewrite (bind_ok _ _ w w1 (Err e) (try_err _ w w1 e Hrun1)).
-        unfold not_found in Hnf. rewrite Hnf. exact (delete_info_run p w1).
-      + unfold w2. rewrite Vb_infos. exact HVb1.
-      + unfold w2. simpl. rewrite Hi1. reflexivity.
+        exact (delete_info_run p w).
+      + unfold w2. apply Vb_infos.
+      + reflexivity.
       + apply (Inv_untrack w w2 p HI Hnd).
-        * unfold w2. rewrite Vb_infos. exact HVb1.
-        * unfold w2. simpl. rewrite Hi1. reflexivity.
-        * exact Hc1.
-        * exact Hf1.
-        * unfold w2. rewrite Vk_infos, HV1. exact (inv_wf_k _ _ _ _ HI).
-        * unfold w2. rewrite Vk_infos, HV1. apply store_eqv_except_refl.
-        * unfold w2. rewrite Vk_infos, HV1. exact Hknone.
+        * unfold w2. apply Vb_infos.
+        * reflexivity.
+        * reflexivity.
+        * reflexivity.
+        * unfold w2. rewrite Vk_infos. exact (inv_wf_k _ _ _ _ HI).
+        * unfold w2. rewrite Vk_infos. apply store_eqv_except_refl.
+        * unfold w2. rewrite Vk_infos. exact Hknone.
     - (* not tracked: nothing happens *)
       exists w. split; [exact (try_remove_backup_untracked w p Hi) |].
       split; [reflexivity |].
@@ -408,17 +403,8 @@ Section Force.
   Definition parents_original (w : world) (p : str) : Prop :=
     w_infos w !! p = Some None -> Vb w !! p <> None -> sdirect B0 p.
 
-  (** if [p] is tracked as "did not exist" and does not exist, its parents are
-      not symlinks in the backup *)
-  Definition backup_parents_resolved (w : world) (p : str) : Prop :=
-    w_infos w !! p = Some None -> Vb w !! p = None -> snolinkpar (Vk w) p.
-
   Definition orig_not_dir_cond (w : world) (p : str) : Prop :=
     forall fi, w_infos w !! p = Some (Some fi) -> fi_kind fi <> KDir.
-
-  Lemma backup_parents_resolved_direct (w : world) (p : str) :
-    Inv Vb Vk B0 w -> sdirect (Vb w) p -> backup_parents_resolved w p.
-  Proof. intros HI Hd _ _. exact (backup_nolinkpar w p HI Hd). Qed.
 
   Lemma entry_ok_not_dir (p : str) (cur : option node) :
     entry_ok p cur -> forall m, cur <> Some (Dir m).
@@ -452,7 +438,7 @@ Section Force.
   Theorem force_backup_specS (w : world) (p : str) :
     Inv Vb Vk B0 w -> snolinkpar (Vb w) p -> p <> s_root ->
     entry_ok p (Vb w !! p) -> orig_not_dir_cond w p ->
-    parents_original w p -> backup_parents_resolved w p ->
+    parents_original w p ->
     exists r w', b_force_backup base backup p w = (r, w') /\ r <> MHalt /\ Vb w' = Vb w /\
                  Inv Vb Vk (rebase B0 p (Vb w !! p)) w' /\
                  (forall q, q <> p -> w_infos w !! q <> None -> w_infos w' !! q = w_infos w !! q) /\
@@ -461,7 +447,7 @@ Section Force.
                  ((forall q n, In q (ancestors p) -> Vb w !! q = Some n -> node_kind n = KDir) ->
                   r = MOk tt).
   Proof.
-    intros HI Hnlp Hne Hcur Hfi Hpar0 Hpark.
+    intros HI Hnlp Hne Hcur Hfi Hpar0.
     destruct (rebase_ok w p HI Hne Hcur Hfi Hpar0) as (Hwf' & Hlinks' & Hsmall').
     (* resolve *)
     destruct (real_path_resolved_spec base Vb Vk tnb accb rhb whb Lb w p
@@ -473,10 +459,6 @@ Section Force.
     destruct (try_remove_backup_spec w1 p HI1 Hne) as (w2 & Hrun2 & HVb2 & Hi2 & HI2).
     { rewrite HVb1. exact (entry_ok_not_dir p _ Hcur). }
     { rewrite Hi1. exact Hfi. }
-    { rewrite Hi1, HVk1. intros Hi.
-      destruct (Vb w !! p) as [n|] eqn:Hb.
-      - apply (backup_nolinkpar w p HI). exact (swf_lookup_sdirect _ _ _ (inv_wf_b _ _ _ _ HI) Hb).
-      - exact (Hpark Hi Hb). }
     rewrite HVb1 in HI2. rewrite Hi1 in Hi2.
     (* back up again *)
     assert (Hnlp2 : snolinkpar (Vb w2) p) by (rewrite HVb2, HVb1; exact Hnlp).
@@ -547,7 +529,7 @@ Section Force.
   Lemma c17_specS (w : world) (p : str) :
     Inv Vb Vk B0 w -> snolinkpar (Vb w) p -> p <> s_root ->
     entry_ok p (Vb w !! p) -> orig_not_dir_cond w p ->
-    parents_original w p -> backup_parents_resolved w p ->
+    parents_original w p ->
     forall r w1 ops w2,
       b_force_backup base backup p w = (r, w1) -> good_run base backup Vb w1 ops w2 ->
       exists w3, b_rollback base backup w2 = (MOk tt, w3) /\
@@ -555,9 +537,9 @@ Section Force.
                  (forall q, q <> p -> q <> s_root -> sonode_eqv (Vb w3 !! q) (B0 !! q)) /\
                  (forall q, q <> s_root -> Vk w3 !! q = None) /\ w_infos w3 = ∅.
   Proof.
-    intros HI Hnlp Hne Hcur Hfi Hpar0 Hpark r w1 ops w2 Hrun Hgood.
+    intros HI Hnlp Hne Hcur Hfi Hpar0 r w1 ops w2 Hrun Hgood.
     destruct (rebase_ok w p HI Hne Hcur Hfi Hpar0) as (Hwf' & Hlinks' & Hsmall').
-    destruct (force_backup_specS w p HI Hnlp Hne Hcur Hfi Hpar0 Hpark)
+    destruct (force_backup_specS w p HI Hnlp Hne Hcur Hfi Hpar0)
       as (r' & w1' & Hrun' & _ & _ & HI1 & _).
     rewrite Hrun in Hrun'. injection Hrun' as _ <-.
     pose proof (good_run_inv base backup Vb Vk tnb tnk accb acck rhb rhk whb whk _
@@ -580,7 +562,7 @@ Definition force_backup_stmt (base backup : fsapi) (Vb Vk : world -> store)
   links_ok tnb tnk accb acck B0 -> all_small B0 -> swf B0 ->
   forall w p, Inv Vb Vk B0 w -> snolinkpar (Vb w) p -> p <> s_root ->
   entry_ok tnb tnk accb acck p (Vb w !! p) -> orig_not_dir_cond w p ->
-  parents_original Vb B0 w p -> backup_parents_resolved Vb Vk w p ->
+  parents_original Vb B0 w p ->
   let B0' := rebase B0 p (Vb w !! p) in
   swf B0' /\ links_ok tnb tnk accb acck B0' /\ all_small B0' /\
   exists r w', b_force_backup base backup p w = (r, w') /\ r <> MHalt /\ Vb w' = Vb w /\
@@ -601,13 +583,13 @@ Theorem force_backup_spec :
   force_backup_stmt base backup Vb Vk tnb tnk accb acck rhb rhk whb whk B0.
 Proof.
   intros base backup Vb Vk tnb tnk accb acck rhb rhk whb whk B0.
-  unfold force_backup_stmt. intros HLb HLk Hlinks Hsmall HwfB0 w p HI Hnlp Hne Hcur Hfi Hpar0 Hpark.
+  unfold force_backup_stmt. intros HLb HLk Hlinks Hsmall HwfB0 w p HI Hnlp Hne Hcur Hfi Hpar0.
   cbv zeta.
   destruct (rebase_ok Vb Vk tnb tnk accb acck B0 Hlinks Hsmall HwfB0 w p HI Hne Hcur Hfi Hpar0)
     as (Hwf' & Hlinks' & Hsmall').
   split; [exact Hwf' | split; [exact Hlinks' | split; [exact Hsmall' |]]].
   destruct (force_backup_specS base backup Vb Vk tnb tnk accb acck rhb rhk whb whk B0
-              HLb HLk Hlinks Hsmall HwfB0 w p HI Hnlp Hne Hcur Hfi Hpar0 Hpark)
+              HLb HLk Hlinks Hsmall HwfB0 w p HI Hnlp Hne Hcur Hfi Hpar0)
     as (r & w' & Hrun & Hnh & HVb & HI' & Hkeep & Hnew & Htr & Hok).
   exists r, w'. split; [exact Hrun |]. split; [exact Hnh |]. split; [exact HVb |].
   split; [exact HI' |]. split; [exact Hkeep |]. split; [exact Hnew |]. split; [| exact Hok].
@@ -647,7 +629,7 @@ Definition c17_stmt (base backup : fsapi) (Vb Vk : world -> store)
   links_ok tnb tnk accb acck B0 -> all_small B0 -> swf B0 ->
   forall w p, Inv Vb Vk B0 w -> snolinkpar (Vb w) p -> p <> s_root ->
   entry_ok tnb tnk accb acck p (Vb w !! p) -> orig_not_dir_cond w p ->
-  parents_original Vb B0 w p -> backup_parents_resolved Vb Vk w p ->
+  parents_original Vb B0 w p ->
   forall r w1 ops w2,
     b_force_backup base backup p w = (r, w1) -> good_run base backup Vb w1 ops w2 ->
     exists w3, b_rollback base backup w2 = (MOk tt, w3) /\
@@ -660,9 +642,9 @@ Theorem c17_spec :
   c17_stmt base backup Vb Vk tnb tnk accb acck rhb rhk whb whk B0.
 Proof.
   intros base backup Vb Vk tnb tnk accb acck rhb rhk whb whk B0.
-  unfold c17_stmt. intros HLb HLb2 HLk Hlinks Hsmall HwfB0 w p HI Hnlp Hne Hcur Hfi Hpar0 Hpark.
+  unfold c17_stmt. intros HLb HLb2 HLk Hlinks Hsmall HwfB0 w p HI Hnlp Hne Hcur Hfi Hpar0.
   exact (c17_specS base backup Vb Vk tnb tnk accb acck rhb rhk whb whk B0
-           HLb HLk Hlinks Hsmall HwfB0 HLb2 w p HI Hnlp Hne Hcur Hfi Hpar0 Hpark).
+           HLb HLk Hlinks Hsmall HwfB0 HLb2 w p HI Hnlp Hne Hcur Hfi Hpar0).
 Qed.
 
 (** the same for a whole transaction: initial state, covered operations,
@@ -675,7 +657,7 @@ Definition c17_initial_stmt (base backup : fsapi) (Vb Vk : world -> store)
   forall w0 ops1 w p, initial Vb Vk tnb tnk accb acck B0 w0 -> good_run base backup Vb w0 ops1 w ->
   snolinkpar (Vb w) p -> p <> s_root ->
   entry_ok tnb tnk accb acck p (Vb w !! p) -> orig_not_dir_cond w p ->
-  parents_original Vb B0 w p -> backup_parents_resolved Vb Vk w p ->
+  parents_original Vb B0 w p ->
   forall r w1 ops2 w2,
     b_force_backup base backup p w = (r, w1) -> good_run base backup Vb w1 ops2 w2 ->
     exists w3, b_rollback base backup w2 = (MOk tt, w3) /\
@@ -689,14 +671,14 @@ Theorem c17_initial_spec :
 Proof.
   intros base backup Vb Vk tnb tnk accb acck rhb rhk whb whk B0.
   unfold c17_initial_stmt.
-  intros HLb HLb2 HLk Hsmall w0 ops1 w p Hinit Hrun1 Hnlp Hne Hcur Hfi Hpar0 Hpark.
+  intros HLb HLb2 HLk Hsmall w0 ops1 w p Hinit Hrun1 Hnlp Hne Hcur Hfi Hpar0.
   pose proof Hinit as (_ & _ & HV0 & HwfB & Hlinks & _ & _).
   pose proof (initial_inv_spec Vb Vk tnb tnk accb acck B0 w0 Hinit) as HI0.
   pose proof (good_run_inv base backup Vb Vk tnb tnk accb acck rhb rhk whb whk B0
                 HLb HLb2 HLk Hlinks Hsmall HwfB w0 ops1 w Hrun1 HI0) as HI.
   rewrite HV0.
   exact (c17_specS base backup Vb Vk tnb tnk accb acck rhb rhk whb whk B0
-           HLb HLk Hlinks Hsmall HwfB HLb2 w p HI Hnlp Hne Hcur Hfi Hpar0 Hpark).
+           HLb HLk Hlinks Hsmall HwfB HLb2 w p HI Hnlp Hne Hcur Hfi Hpar0).
 Qed.
 
 Print Assumptions force_backup_spec.
